@@ -207,9 +207,11 @@ func (in *Interp) havocValue(t types.Type, name string, opt *HavocOpts, depth in
 		}
 		return &ArrV{e}
 	case *types.Pointer:
-		nilv := in.freshVar(name+".nil", BoolSort)
-		if in.branch(nilv) {
-			return PtrV{}
+		if in.param("havocnonnil", 0) == 0 {
+			nilv := in.freshVar(name+".nil", BoolSort)
+			if in.branch(nilv) {
+				return PtrV{}
+			}
 		}
 		c := in.newCell(u.Elem(), in.havocValue(u.Elem(), name+".*", opt, depth+1))
 		return PtrV{C: c}
@@ -225,11 +227,58 @@ func (in *Interp) havocValue(t types.Type, name string, opt *HavocOpts, depth in
 		}
 		return in.newSlice(u.Elem(), e, n)
 	}
+	if _, ok := t.Underlying().(*types.Interface); ok {
+		if in.param("havocnonnil", 0) == 0 {
+			nilv := in.freshVar(name+".nil", BoolSort)
+			if in.branch(nilv) {
+				return IfaceV{}
+			}
+		}
+		switch typeKey(t) {
+		case curvePkg + "Point":
+			ct := in.namedType(repoMod+"/pkg/math/curve", "Secp256k1Point")
+			c := in.newCell(ct, in.havocValue(ct, name+".pt", opt, depth+1))
+			return IfaceV{T: types.NewPointer(ct), V: PtrV{C: c}}
+		case curvePkg + "Scalar":
+			ct := in.namedType(repoMod+"/pkg/math/curve", "Secp256k1Scalar")
+			c := in.newCell(ct, in.havocValue(ct, name+".sc", opt, depth+1))
+			return IfaceV{T: types.NewPointer(ct), V: PtrV{C: c}}
+		case curvePkg + "Curve":
+			ct := in.namedType(repoMod+"/pkg/math/curve", "Secp256k1")
+			return IfaceV{T: ct, V: in.zero(ct)}
+		}
+	}
 	in.fail("havoc: unsupported type %s", t)
 	return nil
 }
 
 var havocModel = map[string]func(in *Interp, name string, opt *HavocOpts) Value{}
+
+func init() {
+	symNumH := func(bits int, signed bool) func(in *Interp, name string, opt *HavocOpts) Value {
+		return func(in *Interp, name string, opt *HavocOpts) Value {
+			v := in.freshVar(name, IntSort)
+			lim := pow2(bits)
+			if signed {
+				in.assume(And(Lt(Neg(lim), v), Lt(v, lim)))
+			} else {
+				in.assume(And(Le(IntConstI(0), v), Lt(v, lim)))
+			}
+			return symNum(v, bits)
+		}
+	}
+	havocModel[sfPkg+"Nat"] = symNumH(4200, false)
+	havocModel[sfPkg+"Int"] = symNumH(4200, true)
+	havocModel["math/big.Int"] = symNumH(4200, true)
+	// paillier.Ciphertext only ever comes out of UnmarshalBinary / Enc: its inner number is never nil.
+	havocModel[repoMod+"/pkg/paillier.Ciphertext"] = func(in *Interp, name string, opt *HavocOpts) Value {
+		nt := in.namedType("github.com/cronokirby/saferith", "Nat")
+		c := in.newCell(nt, havocModel[sfPkg+"Nat"](in, name+".c", opt))
+		return &StructV{[]Value{PtrV{C: c}}}
+	}
+	havocModel[dcrPkg+"ModNScalar"] = func(in *Interp, name string, opt *HavocOpts) Value { return in.freshElem(false, name) }
+	havocModel[dcrPkg+"FieldVal"] = func(in *Interp, name string, opt *HavocOpts) Value { return in.freshElem(true, name) }
+}
 
 // havocInto overwrites *dst with arbitrary content as a decoder could produce it: exported fields arbitrary,
 // unexported fields kept.
